@@ -15,6 +15,7 @@ from __future__ import annotations
 import ast
 import os
 import random
+import urllib.parse
 import re
 import tempfile
 
@@ -381,7 +382,8 @@ def _judge(paths, res, ents, outside, mx, when="", safety=True, complete=True, l
             leaked = sorted(set(x["sent"]) & outside)
             if leaked:
                 return ("outside-content", f"{when}{lvl}: request {_short(sp)} -> response contains the content of file(s) {[files[i][1] for i in leaked]} whose real path lies outside the document root")
-            if x["mark"]:
+            if x["mark"] and not (x["st"] != 20 and T.MARK in urllib.parse.unquote(sp, errors="replace")):
+                # (a refusal that QUOTES the request - the 59 of a line with a fragment - repeats a marker name the request itself spelled: no leak)
                 return ("outside-listing", f"{when}{lvl}: request {_short(sp)} -> {x['st']}, and the response shows entries of a directory outside the document root: {_brief(r)}")
             if x["st"] == 20 and x.get("inside") is False:
                 return ("success-for-outside", f"{when}{lvl}: request {_short(sp)} -> 20, but that path (canonical form {_short(T.ref_canonical(T.url_path(sp)[1]))}) "
